@@ -54,6 +54,7 @@ type Contract struct {
 	Pure     bool // no heap / ghost effect
 	Inline   []string
 	Observe  [][2]string // callee, param -> stored in ghost $obs
+	NoReq    []string    // callees whose preconditions are not claimed at calls from this function
 	GhostSet [][3]string // callee, ghost name, expr
 	CallPre  [][3]string // label, callee, expr
 	Inject   string      // parameter name for injectivity lemma on $obs
@@ -299,6 +300,10 @@ func (cs *ContractSet) parseFile(path, pkg string, prefix string, trusted bool) 
 				cur.Nondet = true
 			case "inline":
 				cur.Inline = append(cur.Inline, strings.Fields(rest)...)
+			case "norequires":
+				// norequires CALLEE ...: the callee's preconditions belong to another property's model (e.g. the
+				// single-operation staging protocol) and are not claimed at this function's calls; listed in the evidence
+				cur.NoReq = append(cur.NoReq, strings.Fields(rest)...)
 			case "observe":
 				fs := strings.Fields(rest)
 				if len(fs) != 2 {
